@@ -27,13 +27,18 @@ type depGraph struct {
 	steps []string
 	deps  map[string][]string // nil entry = no _dependencies list
 	extra []string            // further root fields without dependencies (variables …)
+	opt   map[string]bool     // steps declared as optional fields (`s2?: {…}`)
 }
 
 func (g *depGraph) schema() string {
 	var sb strings.Builder
 	sb.WriteString("input: { _dependencies: [], name: string, list: [...{x: string}] }\nvariables: { x: string }\n")
 	for _, s := range g.steps {
-		sb.WriteString(s + ": { ")
+		if g.opt[s] {
+			sb.WriteString(s + "?: { ")
+		} else {
+			sb.WriteString(s + ": { ")
+		}
 		if d, ok := g.deps[s]; ok && d != nil {
 			qs := []string{}
 			for _, x := range d {
@@ -116,7 +121,7 @@ func (g *depGraph) oracle(cur string) (blocked map[string]bool, isErr bool) {
 
 func c15(c *Ctx) {
 	nSteps := c.N(3, 4)
-	c.Rule = fmt.Sprintf("exhaustive: all 2^%d dependency graphs over %d steps (self-loops and cycles included) x 2 orders of each `_dependencies` list x every current step (and `input`) x every root field as target x 4 positions of the read (head, filter, function argument, nested group), plus the field spelled in another letter case (never available) and read in an argument of a call made on a schema-less value (ParseJSON / RemoveKeysBy* results: a blocked field stays blocked); dangling dependencies and steps without a list; random graphs of up to 12 steps (chains, diamonds, fan-in, cycles). Verdicts compared with the model of getBlockedRootFields and with an independent DFS oracle. Non-trivial = the graph has at least one edge; distinct by (schema, current step, query).", nSteps*nSteps, nSteps)
+	c.Rule = fmt.Sprintf("exhaustive: all 2^%d dependency graphs over %d steps (self-loops and cycles included) x 2 orders of each `_dependencies` list x every current step (and `input`) x every root field as target x 4 positions of the read (head, filter, function argument, nested group), plus the field spelled in another letter case (never available) and read in an argument of a call made on a schema-less value (ParseJSON / RemoveKeysBy* results: a blocked field stays blocked); dangling dependencies and steps without a list; graphs whose steps are optional root fields (`s?:`); random graphs of up to 12 steps (chains, diamonds, fan-in, cycles). Verdicts compared with the model of getBlockedRootFields and with an independent DFS oracle. Non-trivial = the graph has at least one edge; distinct by (schema, current step, query).", nSteps*nSteps, nSteps)
 	steps := []string{}
 	for i := 1; i <= nSteps; i++ {
 		steps = append(steps, fmt.Sprintf("s%d", i))
@@ -159,6 +164,22 @@ func c15(c *Ctx) {
 		&depGraph{steps: steps, deps: map[string][]string{"s1": {"s2"}, "s3": {}}}, // s2 has no list
 		&depGraph{steps: steps, deps: map[string][]string{"s1": {"variables"}, "s2": {}, "s3": {}}},
 	)
+	// steps declared as optional root fields (`s2?: {…}`): the dependency rule is the same, and a blocked
+	// optional step is left out of the offered fields like any other
+	for i := 0; i < c.N(40, 400); i++ {
+		g := &depGraph{steps: steps, deps: map[string][]string{}, opt: map[string]bool{}}
+		for _, s := range steps {
+			d := []string{}
+			for _, t := range steps {
+				if c.Rng.Intn(3) == 0 {
+					d = append(d, t)
+				}
+			}
+			g.deps[s] = d
+			g.opt[s] = c.Rng.Intn(2) == 0
+		}
+		graphs = append(graphs, g)
+	}
 	// random larger graphs
 	nRand := c.N(60, 2000)
 	for i := 0; i < nRand; i++ {
